@@ -27,7 +27,8 @@ P["C01"] = dict(
         "R-PARAM-MIRROR: (program slice) the values written by the forward and by the inverse function of every "
         "invertible operator depend on the same set of parameters",
              "R-ARG-SELECTION: at every call of a crate function no argument is a caller variable named like another same-typed parameter of the callee (exchanged arguments of equal type, e.g. qs(e, sinphi), chase(&locals, globals, key))",
-             "R-STACK-DUAL: the inverse of every stack sub-command is the documented dual (roll <-> unroll with m-n, push <-> pop with reversed arguments, swap/flip self-dual)"],
+             "R-STACK-DUAL: the inverse of every stack sub-command is the documented dual (roll <-> unroll with m-n, push <-> pop with reversed arguments, swap/flip self-dual)",
+             "R-PARITY: (parity abstract interpretation) under reflection in the equator the cart operator's inverse and Ellipsoid::geographic give longitude and height even and latitude odd in Z on every branch; Ellipsoid::cartesian gives X, Y even and Z odd in the latitude; the auxiliary latitudes are odd, the radii of curvature and the normal gravity formulas even in the latitude"],
     not_decided=["numerical round-trip accuracy of any operator", "domain limits", "grid based shifts"],
     level="Decides structural clauses that are necessary conditions of 'inverse undoes forward' (see decides); does "
           "not decide the numerical round-trip accuracy of any operator.",
@@ -59,7 +60,8 @@ P["C06"] = dict(
              "R-ITER-CAP-AGREE: the geodesic operator tests the iteration count returned by geodesic_inv against a threshold below geodesic_inv's iteration cap (non-convergence is detectable)",
              "R-ARG-SELECTION: at every call of a crate function no argument is a caller variable named like another same-typed parameter of the callee (exchanged arguments of equal type, e.g. qs(e, sinphi), chase(&locals, globals, key))",
              "R-PARAM-MIRROR: the latitude operator uses the same ellipsoid forward and inverse",
-             "R-LAT-SHAPE: every auxiliary latitude conversion has a shape that is odd and fixes the equator and the poles by construction: phi + S(2 phi) with a sine series in even multiples and the coefficient set of its direction (forward/inverse), atan(c tan phi) / atan2(tan phi, c), or the isometric pair (odd)"],
+             "R-LAT-SHAPE: every auxiliary latitude conversion has a shape that is odd and fixes the equator and the poles by construction: phi + S(2 phi) with a sine series in even multiples and the coefficient set of its direction (forward/inverse), atan(c tan phi) / atan2(tan phi, c), or the isometric pair (odd)",
+             "R-PARITY: (parity abstract interpretation) under reflection in the equator the cart operator's inverse and Ellipsoid::geographic give longitude and height even and latitude odd in Z on every branch; Ellipsoid::cartesian gives X, Y even and Z odd in the latitude; the auxiliary latitudes are odd, the radii of curvature and the normal gravity formulas even in the latitude"],
     not_decided=["cartesian/geographic accuracy", "geodesic consistency", "closed-form agreement of series",
                  "identities among derived shape parameters"],
     level="Decides the table/series clauses of ellipsoid coherence exactly; numerical clauses are not claimed.",
@@ -362,7 +364,8 @@ P["C14"] = dict(
              "R-WRAPPER-DISPATCH: each variant (flag / action) of the latitude, curvature and gravity operators applies exactly the ellipsoid method documented for it, forward and inverse (the operator and the method are the same route)",
              "R-ARG-SELECTION: at every call of a crate function no argument is a caller variable named like another same-typed parameter of the callee (exchanged arguments of equal type, e.g. qs(e, sinphi), chase(&locals, globals, key))",
              "R-ITER-CAP-AGREE: the geodesic operator rejects only runs at the iteration cap of the ellipsoid method (threshold within 1% of the cap), so operator and method agree on every converged solution",
-             "R-INDEX-SPACE: adapt reads the multiplier of the source descriptor at the gathered index (agreement of adapt with axisswap for the mappings they share)"],
+             "R-INDEX-SPACE: adapt reads the multiplier of the source descriptor at the gathered index (agreement of adapt with axisswap for the mappings they share)",
+             "R-PARITY: (parity abstract interpretation) under reflection in the equator the cart operator's inverse and Ellipsoid::geographic give longitude and height even and latitude odd in Z on every branch; Ellipsoid::cartesian gives X, Y even and Z odd in the latitude; the auxiliary latitudes are odd, the radii of curvature and the normal gravity formulas even in the latitude"],
     not_decided=["every numerical agreement listed in the statement (tmerc vs btmerc, cart vs geocart inverse, "
                  "series vs closed forms and quadrature)"],
     level="Decides wiring agreement between independent routes; numerical agreement is not decided.",
